@@ -85,18 +85,29 @@ def _templates(express, op):
     T3  cancel, re-express on the same name, late packet
     T6  a cancel racing the answering packet while a second Interest waits for the same packet
     T5  the answering Data scheduled (before the Interest is expressed) for the very instant its lifetime ends
+    T7  one InterestParam object re-used (and changed) for a second Interest while the first is pending
     T4  two Interests on one name, one satisfied by a longer-named Data gives up during its validation, then the other's Data"""
     nm = st.lists(st.sampled_from(ALPHA[:2]), min_size=1, max_size=2)
 
     @st.composite
     def t(draw):
-        which = draw(st.sampled_from(['T1', 'T1', 'T2', 'T3', 'T4', 'T5', 'T6']))
+        which = draw(st.sampled_from(['T1', 'T1', 'T2', 'T3', 'T4', 'T5', 'T6', 'T7']))
         n = draw(nm)
         life = draw(st.sampled_from([5, 50]))
         mode = draw(st.sampled_from(['await', 'task']))
         pre = draw(st.lists(op, max_size=3))
         post = draw(st.lists(op, max_size=5))
-        if which == 'T1':
+        if which == 'T7':
+            # T7  ONE InterestParam object is used for two Interests (modified in between) while the first is still pending:
+            #     each Interest keeps the values it was expressed with (lifetime, CanBePrefix)
+            other = draw(nm)
+            core = [{'op': 'express', 'name': n, 'cbp': False, 'digest': 'none', 'life': life, 'vlat': '0', 'verdict': True,
+                     'shared_param': True},
+                    {'op': 'express', 'name': other, 'cbp': True, 'digest': 'none', 'life': 4000, 'vlat': '0', 'verdict': True,
+                     'shared_param': True},
+                    draw(st.sampled_from([{'op': 'adv', 'ms': life + 1}, {'op': 'data', 'of': 0, 'ext': ['a'], 'mode': mode}])),
+                    {'op': 'data', 'of': 0, 'ext': [], 'mode': mode}]
+        elif which == 'T1':
             core = [{'op': 'express', 'name': n, 'cbp': draw(st.booleans()), 'digest': 'none', 'life': life,
                      'vlat': draw(st.sampled_from(['life', 'life+20'])), 'verdict': True},
                     {'op': 'adv', 'ms': draw(st.sampled_from([0, 1, 2]))},
